@@ -721,6 +721,8 @@ def run_c19(pid, tier, seed):
     cfgs += [factory.gen_config_sc(rng) for _ in range(n // 3)] + [factory.gen_config_conv(rng) for _ in range(n // 3)]
     # ... and factories re-wired with the documented reconnect=True (an edge of a node with three edges on one side moved away)
     cfgs += [factory.gen_config_moved(rng) for _ in range(n // 3)]
+    # ... and multi-worker machines in front of a conveyor and a small buffer (several requests of one node waiting on one belt)
+    cfgs += [factory.gen_config_conv_fanout(rng) for _ in range(n // 6)] + [factory.gen_config_conv_queue(rng) for _ in range(n // 3)]
     n = len(cfgs)
     from harness import repro
     a, b = repro.digests(cfgs), repro.digests(cfgs, churn=1000)
